@@ -5,7 +5,8 @@ cd /verif
 PROPS="C01 C03 C04 C06 C07 C08 C09 C10 C12 C14 C15 C19 C20"
 OUT=seeded/MATRIX.txt
 echo "seeded-change $PROPS" > $OUT
-for d in seeded/C*_[0-9]; do
+export VERIF_NO_EVIDENCE=1
+for d in seeded/C*_[0-9] seeded/C*_[0-9][0-9]; do
   name=$(basename $d)
   cd /repo; [ -z "$(git status --porcelain)" ] || { echo "repo dirty"; exit 2; }
   git apply /verif/$d/patch.diff || { echo "$name patch-does-not-apply" >> /verif/$OUT; cd /verif; continue; }
